@@ -621,7 +621,11 @@ static void wait_entry(struct kwait_info *wi)
 			long req = (wi->to_ms != -2) ? (long)wi->to_ms * 1000000L
 						     : wi->to_sec * 1000000000L + wi->to_nsec;
 			long D = dsec * 1000000000L + dnsec;
-			long ok = due ? (req == 0) : (req <= D + slack);
+			/* the clock reading the library used must not be older than the return of the
+			 * previous wait: measured from that instant the sleep may not overshoot either */
+			long D2 = (r->esec - k_last_wait_return.sec) * 1000000000L + (r->ensec - k_last_wait_return.nsec);
+			long ok2 = (req <= slack) | ((D2 > 0) & (req <= D2 + slack));
+			long ok = (due ? (req == 0) : (req <= D + slack)) & ok2;
 			if (!armed) {
 				sx_assert(ok, "C04.oversleeps-past-earliest-timer");
 			} else {
